@@ -135,7 +135,8 @@ Record GoodD (din dout : list nat) (x : cst) (e : list cev) (x' : cst) : Prop :=
      (plus, in the unrepaired pipe code, one per overwritten request) *)
   g_reg : (pendn x + length din <= creg x)%nat ->
           (pendn x' + length dout <= creg x')%nat /\
-          (creg x' + pendn x + length din = creg x + pendn x' + length dout + length (losts e))%nat
+          (creg x' + pendn x + length din = creg x + pendn x' + length dout + length (losts e))%nat /\
+          (creg x' + length (cbs e) = creg x + length (subs e))%nat
 }.
 Notation Good := (GoodD [] []).
 
@@ -145,7 +146,7 @@ Lemma Good_frame d din dout x e x' : GoodD din dout x e x' -> GoodD (din ++ d) (
 Proof.
   intros G. constructor; try apply G.
   - intros r. rewrite !cnt_app. pose proof (g_cnt _ _ _ _ _ G r). lia.
-  - rewrite !app_length. intros H. destruct (g_reg _ _ _ _ _ G) as (A & B); lia.
+  - rewrite !app_length. intros H. destruct (g_reg _ _ _ _ _ G) as (A & B & C); lia.
 Qed.
 
 Lemma Good_same x x' :
@@ -156,11 +157,19 @@ Lemma Good_same x x' :
 Proof.
   intros W N R T C1 C2 Ch P Rg.
   assert (W' : wf x') by (eapply wf_keep; eauto; lia).
-  constructor; auto; try (cbn; constructor); try lia.
+  constructor.
+  - exact W'.
+  - lia.
+  - cbn; constructor.
+  - cbn; constructor.
   - intros r. unfold pend. rewrite R, Ch. cbn. reflexivity.
+  - exact T.
+  - exact C1.
   - rewrite C2. auto.
-  - unfold pendn in *. rewrite R, Ch, Rg. cbn in *. lia.
-  - unfold pendn in *. rewrite R, Ch, Rg. cbn in *. lia.
+  - intros _. reflexivity.
+  - constructor.
+  - exact P.
+  - intros H. unfold pendn in *. rewrite R, Ch, Rg. cbn. lia.
 Qed.
 
 Lemma Good_refl x : wf x -> Good x [] x.
@@ -201,8 +210,8 @@ Proof.
     rewrite (g_tcp _ _ _ _ _ G1), (g_pfix _ _ _ _ _ G1). exact H.
   - apply Forall_app. split; [apply (g_st _ _ _ _ _ G1)|apply (g_st _ _ _ _ _ G2)].
   - rewrite (g_pfix _ _ _ _ _ G2). apply (g_pfix _ _ _ _ _ G1).
-  - intros H. destruct (g_reg _ _ _ _ _ G1 H) as (A1 & B1). destruct (g_reg _ _ _ _ _ G2 A1) as (A2 & B2).
-    split; [exact A2|]. rewrite losts_app, app_length. lia.
+  - intros H. destruct (g_reg _ _ _ _ _ G1 H) as (A1 & B1 & C1). destruct (g_reg _ _ _ _ _ G2 A1) as (A2 & B2 & C2).
+    split; [exact A2|]. rewrite losts_app, cbs_app, subs_app, !app_length. lia.
 Qed.
 
 (* ---- primitive steps ---- *)
@@ -224,7 +233,7 @@ Proof.
   - reflexivity.
   - repeat constructor.
   - exact P.
-  - unfold pendn. rewrite R, Ch, Rg. cbn. lia.
+  - unfold pendn. rewrite R, Ch, Rg. cbn. destruct (Z.eqb_spec c 0); [contradiction|]. cbn. lia.
 Qed.
 
 Definition lost_of (s : cstream) : list cev := match c_req s with Some r0 => [CLost r0] | None => [] end.
@@ -700,7 +709,7 @@ Proof.
   induction a as [|o a IH]; intros x b; cbn [app crun].
   - destruct (crun x b beh); reflexivity.
   - destruct (cstep x o beh) as [x1 e1]. rewrite IH. destruct (crun x1 a beh) as [x2 e2].
-    destruct (crun x2 b beh) as [x3 e3]. rewrite app_assoc. reflexivity.
+    destruct (crun x2 b beh) as [x3 e3]. rewrite <- app_assoc. reflexivity.
 Qed.
 
 Lemma destroy_closed x beh : wf x -> c_closed (cs (fst (destroy x beh))) = true.
@@ -803,7 +812,7 @@ Qed.
    next loop iteration *)
 Lemma close_cancels x beh r :
   wf x -> c_closing (cs x) = false -> c_req (cs x) = Some r ->
-  exists e, snd (crun x [CClose; CRun] beh) = CCb r UV_ECANCELED SrcCancel :: e.
+  exists e, snd (crun x [CClose; CRun] beh) = CReg (creg x) :: CCb r UV_ECANCELED SrcCancel :: e.
 Proof.
   intros W Hc R. pose proof (wf_not_closed x W Hc) as Hd.
   cbn [crun cstep cexec_simple]. unfold cclose. rewrite Hc. cbn [app].
@@ -815,4 +824,68 @@ Proof.
   match goal with |- context [run_cb ?y beh] => destruct (run_cb y beh) as [x1 e1] end.
   match goal with |- context [reject ?c ?s ?k ?y beh] => destruct (reject c s k y beh) as [x2 e2] end.
   cbn. eexists; reflexivity.
+Qed.
+
+(* ---- request accounting (loop->active_reqs.count) ---- *)
+(* in every reachable state the number of registrations = accepted connects not yet
+   called back = requests owed a callback (connect_req and those linked behind it) plus
+   the overwritten ones; nothing is ever overwritten on tcp handles or in the repaired
+   pipe variant *)
+Theorem connect_accounting pfix tcp o os beh :
+  let '(x, tr) := crun (cinit pfix tcp o) os beh in
+  (creg x + length (cbs tr) = length (subs tr))%nat /\
+  creg x = (pendn x + length (losts tr))%nat /\
+  (tcp = true \/ pfix = true -> creg x = pendn x).
+Proof.
+  pose proof (connect_counting pfix tcp o os beh) as C.
+  destruct (crun (cinit pfix tcp o) os beh) as [x tr] eqn:E.
+  pose proof (crun_good _ _ _ _ _ (cinit_wf pfix tcp o) E) as G.
+  destruct (g_reg _ _ _ _ _ G) as (_ & B & D); [cbn; lia|]. cbn in B, D.
+  split; [lia|]. split; [lia|].
+  intros H. destruct C as (_ & _ & L & _). rewrite (L H) in B. cbn in B. lia.
+Qed.
+
+(* ... and once everything is closed and the loop has run, nothing is registered (tcp,
+   repaired pipes); in the unrepaired pipe code exactly the overwritten requests are *)
+Theorem connect_accounting_end pfix tcp o os beh :
+  let '(x, tr) := crun (cinit pfix tcp o) (os ++ [CClose; CRun]) beh in
+  creg x = length (losts tr) /\ (tcp = true \/ pfix = true -> creg x = 0%nat).
+Proof.
+  pose proof (connect_once pfix tcp o os beh) as O.
+  pose proof (connect_accounting pfix tcp o (os ++ [CClose; CRun]) beh) as A.
+  destruct (crun (cinit pfix tcp o) (os ++ [CClose; CRun]) beh) as [x tr].
+  destruct O as (_ & R & Ch & L & _). destruct A as (_ & A & _).
+  unfold pendn in A. rewrite R, Ch in A. cbn in A. split; [exact A|].
+  intros H. rewrite A, (L H). reflexivity.
+Qed.
+
+(* a connect call that returns an error registers nothing and leaves the pending request alone *)
+Lemma failed_connect_registers_nothing x x' e r c :
+  (tcp_connect x = (x', e) \/ exists f n z, pipe_connect2 x f n z = (x', e)) ->
+  In (CRet r c) e -> c <> 0 ->
+  creg x' = creg x /\ c_req (cs x') = c_req (cs x) /\ cchain x' = cchain x.
+Proof.
+  intros [H|(f & n & z & H)] Hin Hc.
+  - unfold tcp_connect in H. destruct (c_req (cs x)) eqn:R.
+    { inversion H; subst. cbn. auto. }
+    destruct (c_delayed (cs x) =? 0); cbn [negb] in H.
+    2: { inversion H; subst. destruct Hin as [Hin|[]]. inversion Hin; subst. exfalso; apply Hc; reflexivity. }
+    destruct (if c_fd (cs x) then (0, o_sock (co x)) else next_z (o_sock (co x))) as [serr so'].
+    destruct (negb (serr =? 0)); [inversion H; subst; cbn; auto|].
+    destruct (connect_loop (o_conn (co x))) as [a cn'].
+    destruct ((a =? 0) || (a =? UV_EINPROGRESS)).
+    { inversion H; subst. destruct Hin as [Hin|[]]. inversion Hin; subst. exfalso; apply Hc; reflexivity. }
+    destruct (a =? UV_ECONNREFUSED).
+    { inversion H; subst. destruct Hin as [Hin|[]]. inversion Hin; subst. exfalso; apply Hc; reflexivity. }
+    inversion H; subst. cbn. auto.
+  - unfold pipe_connect2 in H. destruct (cpfix x && pending (cs x)).
+    { inversion H; subst. cbn. auto. }
+    destruct (pipe_connect2_body x f n z) as [[x1 e1] res] eqn:B.
+    destruct (pipe_body_spec _ _ _ _ _ _ _ B) as (_ & _ & _ & _ & _ & _ & _ & R).
+    destruct res as [err|].
+    + destruct R as (-> & -> & _). inversion H; subst. cbn. auto.
+    + destruct R as (_ & -> & _). inversion H; subst.
+      apply in_app_or in Hin. destruct Hin as [Hin|[Hin|[]]].
+      * unfold lost_of in Hin. destruct (c_req (cs x)); [destruct Hin as [Hin|[]]; discriminate|contradiction].
+      * inversion Hin; subst. exfalso; apply Hc; reflexivity.
 Qed.
